@@ -184,6 +184,7 @@ def run(ctx):
     rule7_replay(ctx)
     rule8_descent(ctx, w)
     rule9_union(ctx)
+    rule10_halfopen(ctx)
 
 
 UNION_FIELDS = ('dr_pi_dag_node.subgraphs_begin_offset', 'dr_pi_dag_node.subgraphs_end_offset', 'dr_pi_dag_node.child_offset')
@@ -243,6 +244,47 @@ def rule9_union(ctx):
                        'the other member of the union lives in the same bytes: an empty-range test on a create_task node compares its '
                        'child offset with garbage, a child offset read from a section is a subgraph offset', loc=l.loc)
     ctx.floor('C19.9', 18)
+
+
+def _end_bound(f, ref, depth=0):
+    """ref is (a pointer or index derived from) node + subgraphs_end_offset: the exclusive end of a child range"""
+    if not isinstance(ref, str) or depth > 4:
+        return False
+    i = f.get(f.strip(ref))
+    if i is None:
+        return False
+    if i.op == 'getelementptr':
+        for x in i.d['path']:
+            p_ = x.get('p')
+            if isinstance(p_, str) and lib.load_terms(f, affine(f, p_), 'dr_pi_dag_node.subgraphs_end_offset'):
+                return True
+        return _end_bound(f, i.d['base'], depth + 1)
+    if i.op == 'bitcast' or (i.op == 'phi' and len(i.d['incoming']) == 1):
+        return _end_bound(f, i.ops[0] if i.op == 'bitcast' else i.d['incoming'][0][0], depth + 1)
+    return bool(lib.load_terms(f, affine(f, ref), 'dr_pi_dag_node.subgraphs_end_offset'))
+
+
+def rule10_halfopen(ctx):
+    ctx.doc('C19.10', 'child ranges are half-open: every libdr loop that walks the children of a node up to node + subgraphs_end_offset '
+            'continues on a strict comparison (<); subgraphs_end_offset is the first offset that is no longer a child')
+    n = 0
+    for file in sorted(ctx.db['profiler']):
+        m = ctx.ssa(file, area='profiler')
+        for f in m.functions.values():
+            for ic in f.order:
+                if ic.op != 'icmp':
+                    continue
+                for a_, b_, side in ((ic.ops[0], ic.ops[1], 'l'), (ic.ops[1], ic.ops[0], 'r')):
+                    ph = f.get(f.strip(a_)) if isinstance(a_, str) else None
+                    if ph is None or ph.op != 'phi' or not any(l_['header'] == ph.block.id for l_ in f.loops) or not _end_bound(f, b_):
+                        continue
+                    n += 1
+                    ctx.fn_analysed.add(f.name)
+                    strict = ic.pred in (('ult', 'slt') if side == 'l' else ('ugt', 'sgt')) or ic.pred == 'ne'
+                    ctx.ob('C19.10', '%s: walk of a child range stops before subgraphs_end_offset (line %d)' % (f.name, ic.line), strict,
+                           'the element at the end offset belongs to the next sibling (or lies outside the table)', loc=ic.loc,
+                           detail='icmp %s' % ic.pred)
+    ctx.floor('C19.10', 5)
 
 
 def rule8_descent(ctx, w):
@@ -676,6 +718,16 @@ def rule5_growth(ctx):
                 ctx.ob('C19.5', '%s: copy granularity equals allocation granularity' % f.name, ok,
                        'copying old_count * sizeof(pointer) instead of old_count * sizeof(element) keeps only a prefix of the array',
                        loc=mc.loc, detail='alloc %s ; copy %s' % (expr_str(f, dst[0].args[0]), expr_str(f, mc.args[2])))
+                # the old contents are carried over whenever there is an old array (a NULL test of it may only skip the copy
+                # when it is NULL)
+                srcl0 = [f.insts[k] for k in f.sources(mc.args[1]) if k in f.insts and f.insts[k].op == 'load']
+                if len(srcl0) == 1:
+                    nts_ = lib.null_tests(f, srcl0[0].id) + [t_ for l_ in f.loads_of(f.field(srcl0[0])) for t_ in lib.null_tests(f, l_.id)
+                                                            if lib.same_addr(f, l_.ops[0], srcl0[0].ops[0])]
+                    if nts_:
+                        ctx.ob('C19.5', '%s: old contents copied whenever an old array exists' % f.name,
+                               any(f.edge_dominates(br.block.id, nn, mc) for br, nn, nl in nts_),
+                               'if (old) memcpy(new, old, ..): the copy sits on the non-NULL side', loc=mc.loc)
                 # the grown array and its new capacity replace the old ones in the owning structure
                 if ok and E:
                     srcl = [f.insts[k] for k in f.sources(mc.args[1]) if k in f.insts and f.insts[k].op == 'load']
@@ -871,6 +923,10 @@ MUTANTS = [
      'edits': [(DUMP, "\t && g->subgraphs_begin_offset < g->subgraphs_end_offset) {\n    g = g + g->subgraphs_end_offset - 1;", "\t && g->subgraphs_begin_offset <= g->subgraphs_end_offset) {\n    g = g + g->subgraphs_end_offset - 1;")]},
     {'name': 'leaf test of the delay computation ignores the node kind (seed2 C18/m3)', 'expect': 'C19.9',
      'edits': [('src/profiler/gen_stat.c', "    if (t->info.kind < dr_dag_node_kind_section\n\t|| t->subgraphs_begin_offset == t->subgraphs_end_offset) {", "    if (t->subgraphs_begin_offset == t->subgraphs_end_offset) {")]},
+    {'name': 'edge enumeration walks one past the children of a section (sweep M0091)', 'expect': 'C19.10',
+     'edits': [(DUMP, "\t  for (y = xa; y < xb; y++) {", "\t  for (y = xa; y <= xb; y++) {")]},
+    {'name': 'pruning stack copies its contents only when it has none (sweep M0103)', 'expect': 'C19.5',
+     'edits': [('src/profiler/dag_recorder_inl.h', "\tif (S->entries) {\n\t  memcpy(new_entries, S->entries, ", "\tif (!(S->entries)) {\n\t  memcpy(new_entries, S->entries, ")]},
     {'name': 'edge pointers set before sorting', 'expect': 'C19.2',
      'edits': [(DUMP, "  dr_pi_dag_enum_edges(G_);\t   /* G_->E */\n  dr_pi_dag_sort_edges(G_);\n  dr_pi_dag_set_edge_ptrs(G_);", "  dr_pi_dag_enum_edges(G_);\t   /* G_->E */\n  dr_pi_dag_set_edge_ptrs(G_);\n  dr_pi_dag_sort_edges(G_);")]},
 ]
